@@ -2,6 +2,7 @@ package props
 
 import (
 	"bytes"
+	"strings"
 
 	"fmt"
 	"github.com/gregoryv/mq"
@@ -213,7 +214,15 @@ func TestC05(t *testing.T) {
 	defer r.Finish(t)
 	guard.StartWatchdog(*vf.Out, "C05")
 
-	replayFrameCases(t, r, checkC05)
+	replayFrameCases(t, r, func(entry string, frame []byte) (bool, string, string) {
+		if strings.HasPrefix(entry, "scaling:") {
+			runtime.LockOSThread()
+			defer runtime.UnlockOSThread()
+			_, _, msg := scalingOf(strings.TrimPrefix(entry, "scaling:"))
+			return false, "superlinear", msg
+		}
+		return checkC05(entry, frame)
+	})
 	if vf.ReplayOnly() {
 		return
 	}
@@ -277,50 +286,68 @@ func TestC05(t *testing.T) {
 	}
 }
 
-// scalingC05 is the metamorphic scaling relation: a frame with 32n list
-// elements must not cost more than 200x the CPU time of n elements (a linear
-// decoder gives about 32x, measured 20..70x under load; a quadratic one about 1000x). The meter is the CPU
-// time of the calling OS thread (getrusage RUSAGE_THREAD), which does not
-// include time spent waiting for a loaded machine; each timing is the
-// minimum of 7 runs and a breach must repeat three times in a row.
-func scalingC05(t *testing.T, r *vf.Rec) {
-	runtime.LockOSThread()
-	defer runtime.UnlockOSThread()
-	mk := func(kind string, n int) []byte {
-		m := model.New(model.PUBLISH)
-		m.PacketID = 1
-		for i := 0; i < n; i++ {
-			switch kind {
-			case "SUBSCRIBE/filters":
-				m.Type = model.SUBSCRIBE
-				m.Filters = append(m.Filters, model.Filter{Filter: fmt.Sprintf("t/%d", i), Opts: 1})
-			case "UNSUBSCRIBE/filters":
-				m.Type = model.UNSUBSCRIBE
-				m.UnsubFilters = append(m.UnsubFilters, fmt.Sprintf("t/%d", i))
-			case "SUBACK/reason-codes":
-				m.Type = model.SUBACK
-				m.ReasonCodes = append(m.ReasonCodes, uint8(i))
-			case "PUBLISH/subscription-ids":
-				m.TopicName = "t"
-				m.SubIDs = append(m.SubIDs, uint32(i+1)) // distinct values
-			case "PUBLISH/user-properties":
-				m.TopicName = "t"
-				m.UserProps = append(m.UserProps, model.KV{K: fmt.Sprintf("k%d", i), V: "v"})
-			case "CONNACK/user-properties":
-				m.Type = model.CONNACK
-				m.UserProps = append(m.UserProps, model.KV{K: fmt.Sprintf("k%d", i), V: "v"})
-			case "CONNECT/will-user-properties":
-				m.Type = model.CONNECT
-				m.ProtocolName, m.ProtocolVersion = "MQTT", 5
-				if m.Will == nil {
-					m.Will = &model.Will{Topic: "w"}
-				}
-				m.Will.UserProps = append(m.Will.UserProps, model.KV{K: fmt.Sprintf("k%d", i), V: "v"})
-			}
-		}
+// scalingC05 is the metamorphic scaling relation: a frame with 32x the list
+// elements (or payload bytes) must not cost more than 200x the CPU time nor
+// allocate more than 200x the bytes of the small one. A decoder doing work
+// proportional to the frame gives about 32x for both (CPU measured 20..70x
+// under load, allocation 20..60x depending on where append regrowth falls); a quadratic one about 1000x. The CPU meter
+// is the time of the calling OS thread (clock_gettime
+// CLOCK_THREAD_CPUTIME_ID), which does not include waiting on a loaded
+// machine; each timing is the minimum of 7 runs and a breach must repeat three
+// times in a row. The allocation meter (runtime.MemStats.TotalAlloc around a
+// single-goroutine call) does not depend on timing.
+var scalingKinds = []string{"SUBSCRIBE/filters", "UNSUBSCRIBE/filters", "SUBACK/reason-codes", "PUBLISH/subscription-ids", "PUBLISH/user-properties", "CONNACK/user-properties", "CONNECT/will-user-properties", "PUBLISH/payload-bytes"}
+
+func scalingFrame(kind string, n int) []byte {
+	m := model.New(model.PUBLISH)
+	m.PacketID = 1
+	if kind == "PUBLISH/payload-bytes" {
+		// n counts units of 256 bytes: 1000 -> 250 KiB, 32000 -> 7.8 MiB
+		m.TopicName = "t"
+		m.Payload = bytes.Repeat([]byte{0x5a}, n*256)
 		m.Normalize()
 		return ref.Canonical(&m)
 	}
+	for i := 0; i < n; i++ {
+		switch kind {
+		case "SUBSCRIBE/filters":
+			m.Type = model.SUBSCRIBE
+			m.Filters = append(m.Filters, model.Filter{Filter: fmt.Sprintf("t/%d", i), Opts: 1})
+		case "UNSUBSCRIBE/filters":
+			m.Type = model.UNSUBSCRIBE
+			m.UnsubFilters = append(m.UnsubFilters, fmt.Sprintf("t/%d", i))
+		case "SUBACK/reason-codes":
+			m.Type = model.SUBACK
+			m.ReasonCodes = append(m.ReasonCodes, uint8(i))
+		case "PUBLISH/subscription-ids":
+			m.TopicName = "t"
+			m.SubIDs = append(m.SubIDs, uint32(i+1)) // distinct values
+		case "PUBLISH/user-properties":
+			m.TopicName = "t"
+			m.UserProps = append(m.UserProps, model.KV{K: fmt.Sprintf("k%d", i), V: "v"})
+		case "CONNACK/user-properties":
+			m.Type = model.CONNACK
+			m.UserProps = append(m.UserProps, model.KV{K: fmt.Sprintf("k%d", i), V: "v"})
+		case "CONNECT/will-user-properties":
+			m.Type = model.CONNECT
+			m.ProtocolName, m.ProtocolVersion = "MQTT", 5
+			if m.Will == nil {
+				m.Will = &model.Will{Topic: "w"}
+			}
+			m.Will.UserProps = append(m.Will.UserProps, model.KV{K: fmt.Sprintf("k%d", i), V: "v"})
+		}
+	}
+	m.Normalize()
+	return ref.Canonical(&m)
+}
+
+const (
+	scalingCPULimit   = 200.0
+	scalingAllocLimit = 200.0
+)
+
+// scalingOf measures one kind; the caller holds the OS thread.
+func scalingOf(kind string) (cpuRatio, allocRatio float64, msg string) {
 	timeOf := func(frame []byte) float64 {
 		best := 1e18
 		for i := 0; i < 7; i++ {
@@ -335,25 +362,53 @@ func scalingC05(t *testing.T, r *vf.Rec) {
 		}
 		return best
 	}
-	for _, kind := range []string{"SUBSCRIBE/filters", "UNSUBSCRIBE/filters", "SUBACK/reason-codes", "PUBLISH/subscription-ids", "PUBLISH/user-properties", "CONNACK/user-properties", "CONNECT/will-user-properties"} {
-		small, big := mk(kind, 1000), mk(kind, 32000)
-		breaches := 0
-		var ratio float64
-		for try := 0; try < 3; try++ {
-			ratio = timeOf(big) / timeOf(small)
-			if ratio > 200 {
-				breaches++
-			} else {
-				break
+	allocOf := func(frame []byte) float64 {
+		best := 1e18
+		var a, b runtime.MemStats
+		for i := 0; i < 3; i++ {
+			runtime.ReadMemStats(&a)
+			_, _ = mqRead(frame)
+			runtime.ReadMemStats(&b)
+			if d := float64(b.TotalAlloc - a.TotalAlloc); d < best {
+				best = d
 			}
 		}
+		if best < 1024 {
+			best = 1024
+		}
+		return best
+	}
+	small, big := scalingFrame(kind, 1000), scalingFrame(kind, 32000)
+	breaches := 0
+	for try := 0; try < 3; try++ {
+		cpuRatio = timeOf(big) / timeOf(small)
+		if cpuRatio > scalingCPULimit {
+			breaches++
+		} else {
+			break
+		}
+	}
+	allocRatio = allocOf(big) / allocOf(small)
+	switch {
+	case breaches == 3:
+		msg = fmt.Sprintf("decoding %s with 32x the elements took %.0fx the CPU time (three times in a row, min of 7 runs each); a decoder doing work proportional to the frame takes about 32x, a quadratic one about 1000x", kind, cpuRatio)
+	case allocRatio > scalingAllocLimit:
+		msg = fmt.Sprintf("decoding %s with 32x the elements (frames of %d and %d bytes) allocated %.0fx the bytes (%.0f vs %.0f bytes, least of 3 runs each); memory proportional to the frame gives about 32x, limit %.0fx", kind, len(small), len(big), allocRatio, allocOf(big), allocOf(small), scalingAllocLimit)
+	}
+	return
+}
+
+func scalingC05(t *testing.T, r *vf.Rec) {
+	runtime.LockOSThread()
+	defer runtime.UnlockOSThread()
+	for _, kind := range scalingKinds {
+		cpu, alloc, msg := scalingOf(kind)
 		r.Case(vf.FPs("scaling", kind), true, "scaling/"+kind, func() interface{} {
-			return map[string]interface{}{"list": kind, "elements": []int{1000, 32000}, "cpu_time_ratio": ratio}
+			return map[string]interface{}{"list": kind, "elements": []int{1000, 32000}, "cpu_time_ratio": cpu, "allocated_bytes_ratio": alloc}
 		})
-		r.Note("scaling %s: 32000 vs 1000 elements cost %.1fx the CPU time (limit 200x)", kind, ratio)
-		if breaches == 3 {
-			r.Fail("scaling", caseFrame{Frame: small, Entry: "scaling:" + kind, Note: "1000 vs 32000 elements"}, "superlinear:"+kind,
-				"decoding %s with 32x the list elements took %.0fx the CPU time (three times in a row, min of 7 runs each); a decoder doing work proportional to the frame takes about 32x, a quadratic one about 1000x", kind, ratio)
+		r.Note("scaling %s: 32000 vs 1000 elements cost %.1fx the CPU time (limit %.0fx) and %.1fx the allocated bytes (limit %.0fx)", kind, cpu, scalingCPULimit, alloc, scalingAllocLimit)
+		if msg != "" {
+			r.Fail("scaling", caseFrame{Frame: []byte{0xc0, 0}, Entry: "scaling:" + kind, Note: "1000 vs 32000 elements"}, "superlinear:"+kind, "%s", msg)
 		}
 	}
 }
